@@ -136,7 +136,9 @@ class VSock:
             raise OSError(errno.EBADF, "Bad file descriptor")
         f = s.fault(self, op)
         if f is not None:
-            if f in self.w.sticky:
+            if f in self.w.sticky and not self.listening:
+                # a connection that failed this way stays dead (an error from
+                # accept() concerns the new connection, not the listener)
                 self.reset = f
             if f == -1:
                 raise OSError("injected generic OSError")
